@@ -154,7 +154,8 @@ class Registry:
             for p, b in c.conc_bindings().items():
                 if p in conc_args:
                     want, got = b.get(), conc_args[p]
-                    same = got is want or (isinstance(want, tuple) and isinstance(got, tuple) and len(got) == len(want)
+                    from .objects import SymbolicFile
+                    same = got is want or (isinstance(want, SymbolicFile) and isinstance(got, SymbolicFile)) or (isinstance(want, tuple) and isinstance(got, tuple) and len(got) == len(want)
                                            and all(x is y for x, y in zip(got, want)))
                     if not same:
                         ok = False
